@@ -235,9 +235,35 @@ fn nontrivial_c07(c: &Cover, _h: &[Op]) -> bool {
 
 const ALL_MIN_ALIGNS: [usize; 5] = [1, 2, 4, 8, 16];
 
+#[derive(Clone, Copy, PartialEq, Eq, Debug)]
+pub enum Mode {
+    /// covering-array configurations, quick depth
+    Quick,
+    /// covering-array configurations, thorough depth
+    Deep,
+    /// complete configuration product, quick depth
+    Wide,
+}
+
+/// quick = one space; thorough = the deep space (covering array, larger depth) followed by the wide space (complete
+/// configuration matrix, quick depth), each with its own share of the time budget
 pub fn spaces<'a>(prop: &'a str, thorough: bool, deadline: Instant, threads: usize) -> Vec<Space<'a>> {
+    if !thorough {
+        return spaces_mode(prop, Mode::Quick, deadline, threads);
+    }
+    let now = Instant::now();
+    let total = deadline.saturating_duration_since(now);
+    let mut v = spaces_mode(prop, Mode::Deep, now + total.mul_f64(0.6), threads);
+    if configs::HAS_FULL {
+        v.extend(spaces_mode(prop, Mode::Wide, deadline, threads));
+    }
+    v
+}
+
+pub fn spaces_mode<'a>(prop: &'a str, mode: Mode, deadline: Instant, threads: usize) -> Vec<Space<'a>> {
+    let thorough = mode == Mode::Deep;
     let (groups, probes) = groups_of(prop);
-    let cfgs = configs::all(thorough);
+    let cfgs = if mode == Mode::Wide { configs::full() } else { configs::quick() };
     let z = SlabCfg::default();
     let og = SlabCfg { phase: 48, overgrant: 40, fail_mask: 0 };
     let og2 = SlabCfg { phase: 4080, overgrant: 100, fail_mask: 0 };
